@@ -2,7 +2,7 @@ SPECIFICATION MCSpec
 CONSTANTS Caps = {1, 2, 3}
           Char = {97, 98}
           WildArgs = FALSE
-          BigVals = {}
+          BigCodes = {}
           WholeLen = 2
 INVARIANTS BoundOK WellFormed
 VIEW View
